@@ -135,8 +135,28 @@ pub fn replay(run: &mut Runner, path: &str, seed: u64, concretisations: usize) {
                 // cannot split this length into n chunks: fall back to random bytes of a splittable length
                 msg = (0..(n * s_target.max(2) - 1)).map(|_| rng.gen()).collect();
             };
-            let parts: Vec<&[u8]> = msg.chunks(size).collect();
+            let mut parts: Vec<Vec<u8>> = msg.chunks(size).map(|p| p.to_vec()).collect();
             assert_eq!(parts.len(), n);
+            // a resized non-final chunk: bytes are moved between it and its successor, so that the concatenation
+            // in id order is still the original (possibly valid) message but the sizes are no longer uniform
+            for c in rx.iter() {
+                let c = c.as_array().unwrap();
+                if c[4].as_u64().unwrap() == 3 {
+                    let j = c[5].as_u64().unwrap() as usize;
+                    if j + 1 < parts.len() {
+                        if rng.gen() && parts[j].len() > 1 {
+                            let b = parts[j].pop().unwrap();
+                            parts[j + 1].insert(0, b);
+                        } else if parts[j + 1].len() > 1 && parts[j].len() < 65535 {
+                            let b = parts[j + 1].remove(0);
+                            parts[j].push(b);
+                        } else if parts[j].len() > 1 {
+                            let b = parts[j].pop().unwrap();
+                            parts[j + 1].insert(0, b);
+                        }
+                    }
+                }
+            }
             let dev = *devs.choose(&mut rng).unwrap();
             let other_dev = *devs.iter().find(|&&d| d != dev).unwrap();
             let chip = rng.gen_range(0..4u8);
@@ -144,23 +164,13 @@ pub fn replay(run: &mut Runner, path: &str, seed: u64, concretisations: usize) {
                 .iter()
                 .map(|c| {
                     let c = c.as_array().unwrap();
-                    let (board, chipk, id, eom, sz, seg) = (
+                    let (board, chipk, id, eom, seg) = (
                         c[0].as_u64().unwrap(),
                         c[1].as_u64().unwrap(),
                         c[2].as_u64().unwrap(),
                         c[3].as_u64().unwrap(),
-                        c[4].as_u64().unwrap(),
                         c[5].as_u64().unwrap() as usize,
                     );
-                    let mut payload = parts[seg].to_vec();
-                    if sz == 3 {
-                        // resized non-final chunk: one byte more or less
-                        if payload.len() > 1 && rng.gen() {
-                            payload.pop();
-                        } else {
-                            payload.push(rng.gen());
-                        }
-                    }
                     ChunkFields {
                         dev: if board == 1 { dev } else { other_dev },
                         pseq: rng.gen(),
@@ -168,7 +178,7 @@ pub fn replay(run: &mut Runner, path: &str, seed: u64, concretisations: usize) {
                         chip: if chipk == 1 { chip } else { (chip + 1) % 4 },
                         flags: eom as u8,
                         id: id as u16,
-                        payload,
+                        payload: parts[seg].clone(),
                     }
                     .pack()
                 })
@@ -209,7 +219,7 @@ pub fn random(run: &mut Runner, seed: u64, count: u64) {
             continue;
         }
         let n = chunks.len();
-        let fault = *["none", "none", "drop", "dup", "board", "chip", "eom", "resize", "idgap", "swapids", "shiftids"]
+        let fault = *["none", "none", "drop", "dup", "board", "chip", "eom", "resize", "idgap", "swapids", "shiftids", "uneven"]
             .choose(&mut rng)
             .unwrap();
         let i = rng.gen_range(0..n);
@@ -232,6 +242,21 @@ pub fn random(run: &mut Runner, seed: u64, count: u64) {
                 }
             }
             "idgap" => chunks[i].id = chunks[i].id.wrapping_add(*[1u16, 0xFFFF, 0x100, n as u16].choose(&mut rng).unwrap()),
+            "uneven" => {
+                // the same message split unevenly: bytes moved from one non-final chunk to its successor
+                if n >= 3 {
+                    let j = rng.gen_range(0..n - 1);
+                    if chunks[j].payload.len() > 1 {
+                        let k = rng.gen_range(1..chunks[j].payload.len());
+                        let moved: Vec<u8> = chunks[j].payload.split_off(k);
+                        let mut np = moved;
+                        np.extend(chunks[j + 1].payload.iter());
+                        if np.len() <= 65535 {
+                            chunks[j + 1].payload = np;
+                        }
+                    }
+                }
+            }
             "shiftids" => {
                 // two different chunks share an id and no id is skipped: ids 0..j-1, j-1, j, .. n-2
                 if n >= 2 {
